@@ -142,11 +142,35 @@ theorem onTimeout_resent (me cid : Nat) (c : Circ Sess) (env : Env) :
         have := sendExtend_resent (Tag := Tag) (Blob := Blob) me cid { c with retry := none } r.cands r.tries env
         exact this
 
+/-- the EXTENDING continuation: circuit dropped, or same hops and either nothing sent (send_extend raised: unverified
+    hop untouched, no retry cache) or a new EXTEND attempt with the ephemeral and identifier of `env` -/
+theorem extendAfterAccept_spec (me cid : Nat) (c1 : Circ Sess) (cl : List Key) (env : Env) :
+    (extendAfterAccept (Tag := Tag) (Blob := Blob) me cid c1 cl env).1 = none ∨
+    ∃ c', (extendAfterAccept (Tag := Tag) (Blob := Blob) me cid c1 cl env).1 = some c' ∧ c'.hops = c1.hops ∧
+      c'.goal = c1.goal ∧
+      ((c'.unverified = c1.unverified ∧ c'.retry = none) ∨
+        ∃ t r, c'.unverified = some (t, env.x) ∧ c'.retry = some r ∧ r.ident = env.ident ∧ r.kind = Kind.extend) := by
+  unfold extendAfterAccept
+  simp only
+  generalize (if (c1.goal == c1.hops.length + 1) = true then (splitCands cl).2
+      else if (splitCands cl).1.isEmpty = true then (splitCands cl).2 else (splitCands cl).1) = chosen
+  generalize (match c1.retry with | some r => r.tries | none => (1 : Int)) = tries
+  by_cases hr : extendRaises me { c1 with retry := none } chosen = true
+  · simp only [hr, if_true]
+    exact Or.inr ⟨_, rfl, rfl, rfl, Or.inl ⟨rfl, rfl⟩⟩
+  · simp only [hr]
+    unfold sendExtend
+    simp only
+    generalize chooseTarget me { c1 with retry := none } chosen env = ch
+    cases ht : ch.1 with
+    | none => exact Or.inl rfl
+    | some t => exact Or.inr ⟨_, rfl, rfl, rfl, Or.inr ⟨t, _, rfl, rfl, rfl, rfl⟩⟩
+
 /-- what the circuit looks like after an answer was accepted -/
 def AcceptedShape (C : Crypto Tag Sess Blob) (c : Circ Sess) (b x : Key) (w : Wire) (env : Env)
     (res : Option (Circ Sess)) : Prop :=
   res = none ∨ ∃ c', res = some c' ∧ c'.hops = c.hops ++ [⟨b, C.kdf [dh x w.pt, dh x b]⟩] ∧ c'.goal = c.goal ∧
-    ((c'.unverified = none ∧ (c'.retry = none ∨ c'.retry = c.retry)) ∨
+    ((c'.unverified = none ∧ c'.retry = none) ∨
       ∃ t r, c'.unverified = some (t, env.x) ∧ c'.retry = some r ∧ r.ident = env.ident)
 
 /-- the three outcomes of `_ours_on_created_extended`: nothing changed; ValueError (malformed key) → circuit removed;
@@ -173,21 +197,15 @@ theorem ours_spec [DecidableEq Tag] (C : Crypto Tag Sess Blob) (me cid : Nat) (c
         unfold AcceptedShape
         split
         · split
-          · exact Or.inr ⟨_, rfl, rfl, rfl, Or.inl ⟨rfl, Or.inr rfl⟩⟩
+          · exact Or.inr ⟨_, rfl, rfl, rfl, Or.inl ⟨rfl, rfl⟩⟩
           · next cl hdec =>
-            rcases sendExtend_spec (Tag := Tag) (Blob := Blob) me cid
-              { goal := c.goal, hops := c.hops ++ [{ peer := b, keys := C.kdf [dh x w.pt, dh x b] }],
-                unverified := none, retry := none, requiredExit := c.requiredExit }
-              (if (c.goal == (c.hops ++ [({ peer := b, keys := C.kdf [dh x w.pt, dh x b] } : Hop Sess)]).length + 1)
-                  = true then
-                (splitCands cl).snd
-              else if (splitCands cl).fst.isEmpty = true then (splitCands cl).snd else (splitCands cl).fst)
-              (match c.retry with
-              | some r => r.tries
-              | none => 1) env with h | ⟨c', t, r, h1, h2, h3, h4, h5, h6⟩
+            rcases extendAfterAccept_spec (Tag := Tag) (Blob := Blob) me cid
+              { c with unverified := none, hops := c.hops ++ [{ peer := b, keys := C.kdf [dh x w.pt, dh x b] }] }
+              cl env with h | ⟨c', h1, h2, h3, ⟨h4, h5⟩ | ⟨t, r, h4, h5, h6, _⟩⟩
             · exact Or.inl h
+            · exact Or.inr ⟨c', h1, h2, h3, Or.inl ⟨h4, h5⟩⟩
             · exact Or.inr ⟨c', h1, h2, h3, Or.inr ⟨t, r, h4, h5, h6⟩⟩
-        · exact Or.inr ⟨_, rfl, rfl, rfl, Or.inl ⟨rfl, Or.inl rfl⟩⟩
+        · exact Or.inr ⟨_, rfl, rfl, rfl, Or.inl ⟨rfl, rfl⟩⟩
       · left
         simp [ha]
 
@@ -613,7 +631,8 @@ theorem unchanged_reason [DecidableEq Tag] (C : Crypto Tag Sess Blob) (n : Node 
                 · split
                   · intro hh; injection hh with hh; have := congrArg Circ.hops hh; simp at this
                   · intro hh
-                    rcases sendExtend_spec (Tag := Tag) (Blob := Blob) n.me cid _ _ _ env with h5 | ⟨c5, t5, r5, h5, h6, _⟩
+                    rcases extendAfterAccept_spec (Tag := Tag) (Blob := Blob) n.me cid _ _ env with
+                      h5 | ⟨c5, h5, h6, _⟩
                     · rw [h5] at hh; cases hh
                     · rw [h5] at hh; injection hh with hh; rw [hh] at h6; simp at h6
                 · intro hh; injection hh with hh; have := congrArg Circ.hops hh; simp at this
@@ -895,5 +914,213 @@ def RunTimely [DecidableEq Tag] (C : Crypto Tag Sess Blob) : Node Sess → List 
 def NoResumedJoin : Ev Tag Blob → Prop
   | .join _ _ _ _ _ _ => False
   | _ => True
+
+/-- no circuit that already has a verified hop carries a retry cache that would re-send a first-hop CREATE -/
+def NoCreateRetryAfterHop (n : Node Sess) : Prop :=
+  ∀ cid c, n.circuits cid = some c → c.hops ≠ [] → ∀ r, c.retry = some r → r.kind = Kind.extend
+
+/-- the public API is used as the test-suite uses it: send_initial_create only on circuits without a verified hop -/
+def ApiOnFreshCircuit (n : Node Sess) : Ev Tag Blob → Prop
+  | .sendInitialCreate cid _ _ _ => ∀ c, n.circuits cid = some c → c.hops = []
+  | _ => True
+
+theorem sendExtend_kind (me cid : Nat) (c : Circ Sess) (cands : List Key) (tries : Int) (env : Env)
+    (c' : Circ Sess) (h : (sendExtend (Tag := Tag) (Blob := Blob) me cid c cands tries env).1 = some c') :
+    c'.hops = c.hops ∧ ∀ r, c'.retry = some r → r.kind = Kind.extend := by
+  unfold sendExtend at h
+  simp only at h
+  generalize chooseTarget me c cands env = ch at h
+  cases ht : ch.1 with
+  | none => rw [ht] at h; cases h
+  | some t =>
+    rw [ht] at h
+    simp only [Option.some.injEq] at h
+    subst h
+    exact ⟨rfl, fun r hr => by simp at hr; rw [← hr]⟩
+
+theorem sendInitialCreate_keeps (me cid : Nat) (c : Circ Sess) (cands : List Key) (tries : Int) (env : Env)
+    (c' : Circ Sess) (h : (sendInitialCreate (Tag := Tag) (Blob := Blob) me cid c cands tries env).1 = some c') :
+    c'.hops = c.hops := by
+  cases cands with
+  | nil => simp [sendInitialCreate] at h; rw [← h]
+  | cons f rest => simp [sendInitialCreate] at h; rw [← h]
+
+theorem onTimeout_kind (me cid : Nat) (c : Circ Sess) (env : Env) (c' : Circ Sess)
+    (hinv : c.hops ≠ [] → ∀ r, c.retry = some r → r.kind = Kind.extend)
+    (h : (onTimeout (Tag := Tag) (Blob := Blob) me cid c env).1 = some c') :
+    c'.hops ≠ [] → ∀ r, c'.retry = some r → r.kind = Kind.extend := by
+  unfold onTimeout at h
+  cases hr : c.retry with
+  | none => rw [hr] at h; simp at h; subst h; exact hinv
+  | some r =>
+    rw [hr] at h
+    simp only at h
+    split at h
+    · cases h
+    · cases hk : r.kind with
+      | create =>
+        rw [hk] at h
+        have hh := sendInitialCreate_keeps (Tag := Tag) (Blob := Blob) me cid _ _ _ _ c' h
+        intro hne
+        have : c.hops ≠ [] := by simpa [hh] using hne
+        have := hinv this r hr
+        rw [hk] at this; cases this
+      | extend =>
+        rw [hk] at h
+        exact fun _ => (sendExtend_kind (Tag := Tag) (Blob := Blob) me cid _ _ _ _ c' h).2
+
+theorem ours_kind [DecidableEq Tag] (C : Crypto Tag Sess Blob) (me cid : Nat) (c : Circ Sess)
+    (key : Option Wire) (auth : Tag) (cands : Blob) (env : Env) (c' : Circ Sess)
+    (h : (ours C me cid c key auth cands env).1 = some c') :
+    c' = c ∨ ∀ r, c'.retry = some r → r.kind = Kind.extend := by
+  rcases ours_spec C me cid c key auth cands env with h1 | ⟨h1, _, _⟩ | ⟨b, x, w, hu, hk, ha, hs⟩
+  · rw [h1] at h; simp at h; exact Or.inl h.symm
+  · rw [h1] at h; cases h
+  · right
+    subst hk ha
+    unfold ours at h
+    simp only [hu, genVerify_eq, pubOf, if_true] at h
+    split at h
+    · split at h
+      · simp at h; subst h; intro r hr; simp at hr
+      · rcases extendAfterAccept_spec (Tag := Tag) (Blob := Blob) me cid _ _ env with
+          h5 | ⟨c5, h5, _, _, ⟨_, h7⟩ | ⟨t, r5, _, h7, _, h8⟩⟩
+        · rw [h5] at h; cases h
+        · rw [h5] at h; cases h; intro r hr; rw [h7] at hr; cases hr
+        · rw [h5] at h; cases h; intro r hr; rw [h7] at hr; cases hr; exact h8
+    · simp at h; subst h; intro r hr; simp at hr
+
+
+theorem step_circ_kind [DecidableEq Tag] (C : Crypto Tag Sess Blob) (n : Node Sess) (e : Ev Tag Blob) (cid : Nat) (c c' : Circ Sess)
+    (h0 : n.circuits cid = some c) (hnew : ¬ e.createsCircuit cid) (hapi : ApiOnFreshCircuit n e)
+    (hinv : c.hops ≠ [] → ∀ r, c.retry = some r → r.kind = Kind.extend)
+    (h1 : (step C n e).1.circuits cid = some c') :
+    c'.hops ≠ [] → ∀ r, c'.retry = some r → r.kind = Kind.extend := by
+  have origin : ∀ cid' ident key auth cands env,
+      (originAnswer C n cid' ident key auth cands env).1.circuits cid = some c' →
+      (c'.hops ≠ [] → ∀ r, c'.retry = some r → r.kind = Kind.extend) := by
+    intro cid' ident key auth cands env h
+    rcases originAnswer_circ C n cid' ident key auth cands env cid c h0 with h' | ⟨_, r, _, _, h'⟩
+    · rw [h] at h'; cases h'; exact hinv
+    · rw [h] at h'
+      rcases ours_kind C n.me cid c key auth cands env c' h'.symm with hc | hk
+      · subst hc; exact hinv
+      · exact fun _ => hk
+  cases e with
+  | createCircuit cid' goal re fh env =>
+    have hc : cid ≠ cid' := fun h => hnew (by simp [Ev.createsCircuit, h])
+    simp only [step, createCircuit, setCirc_circ, hc, if_false] at h1
+    rw [h0] at h1; cases h1; exact hinv
+  | created cid' ident key auth cands env =>
+    cases hcr : pairing? n cid' ident with
+    | some req =>
+      have : (step C n (.created cid' ident key auth cands env)).1.circuits cid = n.circuits cid := by
+        simp only [step, onCreated, hcr]
+        split
+        · rfl
+        · split
+          · rfl
+          · split <;> rfl
+      rw [this, h0] at h1; cases h1; exact hinv
+    | none =>
+      simp only [step, onCreated, hcr] at h1
+      exact origin cid' ident key auth cands env h1
+  | extended cid' ident key auth cands env =>
+    simp only [step, onExtended] at h1
+    exact origin cid' ident key auth cands env h1
+  | retryTimeout cid' env =>
+    by_cases hc : cid = cid'
+    · subst hc
+      simp only [step, retryTimeout, h0, setCirc_circ, if_true] at h1
+      exact onTimeout_kind _ _ _ _ _ hinv h1
+    · have : (step C n (.retryTimeout cid' env)).1.circuits cid = n.circuits cid := by
+        simp only [step, retryTimeout]
+        split
+        · rfl
+        · simp [setCirc_circ, hc]
+      rw [this, h0] at h1; cases h1; exact hinv
+  | sendExtend cid' cands tries env =>
+    by_cases hc : cid = cid'
+    · subst hc
+      simp only [step, h0, setCirc_circ, if_true] at h1
+      exact fun _ => (sendExtend_kind _ _ _ _ _ _ c' h1).2
+    · have : (step C n (.sendExtend cid' cands tries env)).1.circuits cid = n.circuits cid := by
+        simp only [step]
+        split
+        · rfl
+        · simp [setCirc_circ, hc]
+      rw [this, h0] at h1; cases h1; exact hinv
+  | sendInitialCreate cid' cands tries env =>
+    by_cases hc : cid = cid'
+    · subst hc
+      simp only [step, h0, setCirc_circ, if_true] at h1
+      have hh := sendInitialCreate_keeps _ _ _ _ _ _ c' h1
+      have hfresh : c.hops = [] := hapi c h0
+      intro hne
+      rw [hh, hfresh] at hne
+      exact absurd rfl hne
+    · have : (step C n (.sendInitialCreate cid' cands tries env)).1.circuits cid = n.circuits cid := by
+        simp only [step]
+        split
+        · rfl
+        · simp [setCirc_circ, hc]
+      rw [this, h0] at h1; cases h1; exact hinv
+  | removeCircuit cid' =>
+    by_cases hc : cid = cid'
+    · simp [step, upd, hc] at h1
+    · simp [step, upd, hc, h0] at h1; subst h1; exact hinv
+  | create cid' ident nodePk key y offered =>
+    have : (step C n (.create cid' ident nodePk key y offered)).1.circuits cid = n.circuits cid := by
+      simp only [step, onCreate]
+      split
+      · rfl
+      · split
+        · rfl
+        · split
+          · rfl
+          · split <;> rfl
+    rw [this, h0] at h1; cases h1; exact hinv
+  | join cid' ident nodePk key y offered =>
+    have : (step C n (.join cid' ident nodePk key y offered)).1.circuits cid = n.circuits cid := by
+      simp only [step, joinCircuit]
+      split
+      · rfl
+      · split <;> rfl
+    rw [this, h0] at h1; cases h1; exact hinv
+  | extend cid' ident nodePk key ag toCid number =>
+    have : (step C n (.extend cid' ident nodePk key ag toCid number)).1.circuits cid = n.circuits cid := by
+      simp only [step, onExtend]
+      split
+      · rfl
+      · split
+        · rfl
+        · split
+          · rfl
+          · split <;> rfl
+    rw [this, h0] at h1; cases h1; exact hinv
+  | createdExpire cid' => rw [show (step C n (.createdExpire cid')).1.circuits cid = n.circuits cid from rfl, h0] at h1; cases h1; exact hinv
+  | createExpire number => rw [show (step C n (.createExpire number)).1.circuits cid = n.circuits cid from rfl, h0] at h1; cases h1; exact hinv
+
+/-- one step keeps the invariant -/
+theorem no_create_retry_step [DecidableEq Tag] (C : Crypto Tag Sess Blob) (n : Node Sess) (e : Ev Tag Blob)
+    (hinv : NoCreateRetryAfterHop n) (hapi : ApiOnFreshCircuit n e) : NoCreateRetryAfterHop (step C n e).1 := by
+  intro cid c' h1
+  by_cases hnew : e.createsCircuit cid
+  · cases e with
+    | createCircuit cid' goal re fh env =>
+      have : cid' = cid := hnew
+      subst this
+      simp only [step, createCircuit, setCirc_circ, if_true] at h1
+      have hh := sendInitialCreate_keeps _ _ _ _ _ _ c' h1
+      intro hne; rw [hh] at hne; exact absurd rfl hne
+    | _ => exact absurd hnew (by simp [Ev.createsCircuit])
+  · cases h0 : n.circuits cid with
+    | none => rw [step_absent C n e cid h0 hnew] at h1; cases h1
+    | some c => exact step_circ_kind C n e cid c c' h0 hnew hapi (hinv cid c h0) h1
+
+/-- every API use in a trace is on a fresh circuit -/
+def RunApiFresh [DecidableEq Tag] (C : Crypto Tag Sess Blob) : Node Sess → List (Ev Tag Blob) → Prop
+  | _, [] => True
+  | n, e :: es => ApiOnFreshCircuit n e ∧ RunApiFresh C (step C n e).1 es
 
 end Ipv8.C08
